@@ -14,7 +14,7 @@ RULE = ("values from the seeded JSON generator (all string classes incl. isolate
         "big ints, permuted insertion orders), JSON texts in random spellings and malformed neighbours; a case is "
         "non-trivial when its value contains a container or a non-ASCII/escaped string; distinct = distinct canonical bytes")
 
-THEOREMS = ["parse_ser", "ser_injective", "ser_perm", "ser_ascii", "ser_fixpoint", "canon_idem", "parsed_roundtrips", "long_integer_literal_rejected"]
+THEOREMS = ["parse_ser", "ser_injective", "ser_reorder", "ser_ascii", "ser_fixpoint", "reorder_canon", "parsed_roundtrips", "long_integer_literal_rejected"]
 
 
 def nontrivial(v) -> bool:
